@@ -58,7 +58,7 @@ fn any_kind() -> PieceKind {
 //@ domain: complete
 //@ functions: engine/see.rs::see
 //@ timeout: 3000
-//@ mem_gb: 12
+//@ mem_gb: 4
 //@ note: one iteration of the exchange loop (block verbatim) from ANY state satisfying the invariant, on a fully symbolic board with an arbitrary target square, arbitrary set of already-spent pieces, running score within +-16000, victim and side: the iteration stops exactly when the protocol says so (side to move already ahead of the threshold / no attacker left / king would capture into an attacked square) and leaves the state untouched; otherwise it spends exactly one attacker of the side to move, of the LEAST valuable kind available, adds or subtracts the victim's value, makes that attacker the next victim, and the attacker / slider sets again equal the attack set of the REDUCED occupancy (x-rays behind the spent piece revealed on the right kind of line, spent pieces never return). No i16 overflow.
 //@ assumes: table lookups == geometry (C07); meaning of all_attackers_of: C01.attackers.all_exact; |running score| <= 16000 (one side's non-king material is at most 10300)
 #[kani::proof]
@@ -134,7 +134,7 @@ fn vk_c20_loop_step() {
 //@ domain: complete
 //@ functions: engine/see.rs::see
 //@ timeout: 3000
-//@ mem_gb: 12
+//@ mem_gb: 4
 //@ note: the text of see() before its loop, on a fully symbolic position for every shape-valid non-en-passant capture (capturing promotions included) and every threshold in +-1000: the running score starts at captured value + promotion gain - threshold, the first victim is the piece that will stand on the target square (the promoted piece for a promotion), the occupancy is the board's with the mover lifted and the target square set, the attacker and slider sets satisfy the loop invariant for that occupancy (in particular the mover itself is NOT among the attackers), and the side recorded is the mover's
 //@ assumes: table lookups == geometry (C07); meaning of all_attackers_of: C01.attackers.all_exact
 #[kani::proof]
@@ -196,7 +196,7 @@ fn vk_c20_loop_init() {
 //@ obligation: C20.canary.loop
 //@ canary: true
 //@ timeout: 3000
-//@ mem_gb: 12
+//@ mem_gb: 4
 #[kani::proof]
 #[kani::unwind(10)]
 //@@stubs-tables
